@@ -8,7 +8,7 @@ use crate::prng::Rng;
 use crate::refi::{parse_pattern, str_match, PKind};
 
 pub const WORDS: &[&str] = &["foo", "bar", "baz", "qux", "Foo", "BAR", "fo", "ob", "a", "b", "x1", "ar", "o", ""];
-pub const TOP_FIELDS: &[&str] = &["a", "b", "c", "d", "num", "flag", "tags", "n.a", "n.b", "m.x", "arr[0]", "arr[1]", "two words"];
+pub const TOP_FIELDS: &[&str] = &["a", "b", "c", "d", "num", "flag", "tags", "n.a", "n.b", "m.x", "arr[0]", "arr[1]", "two words", "m.x[1]", "n.a[0]"];
 pub const NEST_FIELDS: &[&str] = &["n", "m", "p"];
 pub const INNER_FIELDS: &[&str] = &["a", "b", "x", "y", "q.r"];
 pub const INT_CONSTS: &[i64] = &[0, 1, 2, 5, -1, -3, 10, 7045, i64::MAX, i64::MIN, 9007199254740993];
@@ -17,7 +17,7 @@ pub const FLT_CONSTS: &[f64] = &[0.0, 0.5, 1.0, 1.5, -1.5, 2.0, 10.0, 1e19];
 /// (regex, notes): valid regexes incl. every `.*` adjacency the rewrite pass looks at
 pub const REGEXES: &[&str] = &[
     "^fo+", "ba[rz]$", ".*foo.*", ".*bar", "foo.*", "b.r", "[0-9]+", "^$", "o", ".*", ".*.*", "^.*foo.*$", "(foo|bar).*", ".*(a|b)",
-    "fo{2}", "\\.", "x1?", "^(?:ba)+", ".*?bar", "a\\.*", ".*+x", ".*?", "foo.*?", ".*{1}o", "fo\\\\.*", "^\\D+$", "\\S\\S", "\\W", "\\Bo", "[A-C]ar", "^\\d+$", "(?-i)Foo", "\\x42", "[[:upper:]]", "\\p{Lu}",
+    "fo{2}", "\\.", "x1?", "^(?:ba)+", ".*?bar", "a\\.*", ".*+x", ".*?", "foo.*?", ".*{1}o", "fo\\\\.*", "^\\D+$", "\\S\\S", "\\W", "\\Bo", "[A-C]ar", "^\\d+$", "(?-i)Foo", "\\x42", "[[:upper:]]", "\\p{Lu}", "^.*foo", "^.*", "bar.*$", "(?m)^ba", "^.*ba[rz]$", "(?s)fo.*ar",
 ];
 
 #[derive(Clone, Debug)]
@@ -37,6 +37,7 @@ pub struct GenCfg {
     pub lists: bool,
     pub seq_idents: bool,
     pub insens: bool,
+    pub wide_lists: bool,
     /// probability (pct) that fields are drawn from a narrow pool so that predicates share fields
     pub share_fields: u32,
 }
@@ -59,6 +60,7 @@ impl Default for GenCfg {
             lists: true,
             seq_idents: true,
             insens: true,
+            wide_lists: true,
             share_fields: 50,
         }
     }
@@ -205,7 +207,19 @@ pub fn gen_entry(rng: &mut Rng, cfg: &GenCfg, depth: usize) -> (Key, RVal) {
     if want_list {
         let n = 1 + rng.below(cfg.max_list);
         let mut ms: Vec<RVal> = vec![];
-        if matches!(castm, KMod::None | KMod::Str) && rng.chance(18) {
+        if cfg.wide_lists && matches!(castm, KMod::None) && rng.chance(4) {
+            // a wide list: 60..140 needles (the per-needle counting switches representation at 64)
+            let k = 60 + rng.below(80);
+            let kind = rng.below(4);
+            for i in 0..k {
+                ms.push(RVal::Str(match kind {
+                    0 => format!("*w{}.*", i),
+                    1 => format!("w{}.", i),
+                    2 => format!("w{}.*", i),
+                    _ => format!("*w{}.", i),
+                }));
+            }
+        } else if matches!(castm, KMod::None | KMod::Str) && rng.chance(18) {
             // a "family": one text under several pattern kinds (members that only differ in kind,
             // case flag or wildcard placement are where batching and rewriting can slip)
             let w = loop {
@@ -351,7 +365,53 @@ fn gen_cond_tree(rng: &mut Rng, cfg: &GenCfg, names: &[String], idents: &[(Strin
     }
 }
 
+/// several identifiers with nested blocks over the SAME field (merged by shake), and-ed / or-ed
+pub fn nested_family_rule(rng: &mut Rng, cfg: &GenCfg) -> RuleAst {
+    let f = rng.pick(NEST_FIELDS).to_string();
+    let n = 2 + rng.below(3);
+    let mut idents = vec![];
+    for i in 0..n {
+        let inner_n = 1 + rng.below(3);
+        let mut inner: Entries = vec![];
+        for _ in 0..inner_n {
+            let e = gen_entry(rng, &GenCfg { nested: false, key_quant: false, wide_lists: false, ..cfg.clone() }, 1);
+            if !inner.iter().any(|(k, _)| k.text() == e.0.text()) {
+                inner.push(e);
+            }
+        }
+        let mut es: Entries = vec![(Key::plain(&f), RVal::Map(inner))];
+        if rng.chance(30) {
+            es.push(gen_entry(rng, &GenCfg { nested: false, wide_lists: false, ..cfg.clone() }, 0));
+        }
+        idents.push((format!("I{}", i), Ident::Map(es)));
+    }
+    let and = rng.chance(65);
+    let mut cond = Cond::id("I0");
+    for i in 1..n {
+        cond = if and { Cond::and(cond, Cond::id(&format!("I{}", i))) } else { Cond::or(cond, Cond::id(&format!("I{}", i))) };
+    }
+    RuleAst { idents, cond, tp: vec![], tn: vec![] }
+}
+
+/// an or-group over more than 128 distinct fields (a matrix with more columns than one byte
+/// can index) plus a few shared ones
+pub fn wide_matrix_rule(rng: &mut Rng) -> RuleAst {
+    let cols = 120 + rng.below(90);
+    let mut seq: Vec<Entries> = vec![];
+    for i in 0..cols {
+        let mut es: Entries = vec![(Key::plain(&format!("f{}", i)), RVal::Str(format!("v{}", i % 7)))];
+        if rng.chance(50) {
+            es.push((Key::plain(&format!("f{}", (i + 1) % cols)), RVal::Str(format!("v{}*", (i + 1) % 7))));
+        }
+        seq.push(es);
+    }
+    RuleAst { idents: vec![("I0".into(), Ident::Seq(seq))], cond: Cond::id("I0"), tp: vec![], tn: vec![] }
+}
+
 pub fn gen_rule(rng: &mut Rng, cfg: &GenCfg) -> RuleAst {
+    if cfg.nested && rng.chance(8) {
+        return nested_family_rule(rng, cfg);
+    }
     let n = 1 + rng.below(cfg.max_idents);
     let names: Vec<String> = (0..n).map(|i| format!("I{}", i)).collect();
     let idents: Vec<(String, Ident)> = names.iter().map(|n| (n.clone(), gen_ident(rng, cfg))).collect();
@@ -444,7 +504,7 @@ pub fn hay_for(rng: &mut Rng, pat: &str, want: bool) -> String {
         _ => String::new(),
     };
     for _ in 0..24 {
-        let cand = match rng.below(9) {
+        let cand = match rng.below(11) {
             0 => needle.clone(),
             1 => format!("{}{}", needle, word(rng)),
             2 => format!("{}{}", word(rng), needle),
@@ -457,6 +517,8 @@ pub fn hay_for(rng: &mut Rng, pat: &str, want: bool) -> String {
             }
             6 => format!("{}{}", flip_case(&needle, rng), word(rng)),
             7 => word(rng),
+            8 => format!("{}\n{}{}", word(rng), word(rng), needle),
+            9 => format!("{}\n{}", needle, word(rng)),
             _ => format!("{}{}", word(rng), word(rng)),
         };
         if str_match(&p, &cand) == want {
@@ -501,7 +563,13 @@ pub fn junk_scalar(rng: &mut Rng) -> DVal {
         4 => DVal::Float(*rng.pick(&[0.0, 1.0, 1.5, -0.5, f64::NAN, f64::INFINITY, 1e300])),
         5 => DVal::Str(rng.pick(&["true", "false", "1", "0", "5", "1.5", "-1", "", "null"]).to_string()),
         6 => DVal::UInt(*rng.pick(&[u64::MAX, i64::MAX as u64, i64::MAX as u64 + 1, 7045])),
-        _ => DVal::Str(word(rng)),
+        _ => {
+            if rng.chance(12) {
+                DVal::Str(format!("{}\n{}", word(rng), word(rng)))
+            } else {
+                DVal::Str(word(rng))
+            }
+        }
     }
 }
 
@@ -605,9 +673,13 @@ fn ensure_obj<'a>(obj: &'a mut DVal, key: &str, rng: &mut Rng, arrays: bool) -> 
                 Some(i) => DVal::Arr((0..=i).map(|_| DVal::Obj(vec![])).collect()),
                 None => {
                     if arrays && rng.chance(22) {
-                        // array of objects: the working object plus a bystander
+                        // array of objects: several working objects (keys of one block may end up
+                        // split across elements) and sometimes a bystander
                         let mut v = vec![DVal::Obj(vec![])];
-                        if rng.chance(60) {
+                        for _ in 0..rng.below(3) {
+                            v.push(DVal::Obj(vec![]));
+                        }
+                        if rng.chance(40) {
                             v.push(DVal::obj(vec![("a", junk_scalar(rng)), ("b", DVal::s("bar"))]));
                         }
                         if rng.chance(30) {
@@ -626,7 +698,15 @@ fn ensure_obj<'a>(obj: &'a mut DVal, key: &str, rng: &mut Rng, arrays: bool) -> 
         cur = match (seg.index, slot) {
             (Some(i), DVal::Arr(a)) => a.get_mut(i)?,
             (Some(_), _) => return None,
-            (None, DVal::Arr(a)) => a.iter_mut().find(|x| matches!(x, DVal::Obj(_)))?,
+            (None, DVal::Arr(a)) => {
+                let objs: Vec<usize> = a.iter().enumerate().filter(|(_, x)| matches!(x, DVal::Obj(_))).map(|(i, _)| i).collect();
+                if objs.is_empty() {
+                    return None;
+                }
+                // mostly the first object, sometimes another one
+                let pick = if rng.chance(65) { objs[0] } else { objs[rng.below(objs.len())] };
+                &mut a[pick]
+            }
             (None, s) => s,
         };
     }
